@@ -788,6 +788,8 @@ impl EcmaRegexValidator {
     if !self.eat('[') {
       return Ok(false);
     }
+    // `[^`: the class is negated, the caret is not a class atom.
+    self.eat('^');
     self.consume_class_ranges()?;
     if !self.eat(']') {
       return Err("Unterminated character class".to_string());
